@@ -1515,6 +1515,50 @@ func leadTweak(v any, x uint64) (any, bool) {
 	return v, false
 }
 
+// setBlobCount finds the block contents inside a proposal (a struct with fields Blobs and KZGProofs) and makes it
+// carry n blobs and n proofs (false: the value has none).
+func setBlobCount(v any, n int) bool {
+	done := false
+	var walk func(rv reflect.Value, depth int)
+	walk = func(rv reflect.Value, depth int) {
+		if done || depth > 6 {
+			return
+		}
+		switch rv.Kind() {
+		case reflect.Ptr, reflect.Interface:
+			if !rv.IsNil() {
+				walk(rv.Elem(), depth+1)
+			}
+		case reflect.Struct:
+			bl, pr := rv.FieldByName("Blobs"), rv.FieldByName("KZGProofs")
+			if bl.IsValid() && pr.IsValid() && bl.Kind() == reflect.Slice && pr.Kind() == reflect.Slice && bl.CanSet() && pr.CanSet() {
+				for _, f := range []reflect.Value{bl, pr} {
+					nf := reflect.MakeSlice(f.Type(), n, n)
+					for i := 0; i < n; i++ {
+						if f.Len() > 0 {
+							nf.Index(i).Set(f.Index(i % f.Len()))
+						}
+						// make the entries pairwise different
+						if e := nf.Index(i); e.Kind() == reflect.Array && e.Len() > 0 && e.Index(0).Kind() == reflect.Uint8 {
+							e.Index(0).SetUint(uint64(i + 1))
+						}
+					}
+					f.Set(nf)
+				}
+				done = true
+				return
+			}
+			for i := 0; i < rv.NumField(); i++ {
+				if rv.Type().Field(i).IsExported() {
+					walk(rv.Field(i), depth+1)
+				}
+			}
+		}
+	}
+	walk(reflect.ValueOf(v), 0)
+	return done
+}
+
 func slot20(v any) bool {
 	a, ok := v.(core.VersionedAttestation)
 	if !ok {
@@ -2076,9 +2120,30 @@ func gen(a hx.Args, e *env, do func(string)) {
 		if _, ok := leadTweak(k.gen(), 1); ok {
 			nlead = len(leadValues)
 		}
-		for r := 0; r < reps+nlead; r++ {
+		// unblinded deneb+ proposals carry their blobs: the count is bounded by the chain's blob schedule (6 in deneb, 9 in
+		// electra, raised by the BPO forks of fulu to 15 and 21), not by the codec; such values are only round-tripped
+		// (they are megabytes: no mutation sweep over them)
+		var blobCounts []int
+		if (k.typ == "VersionedSignedProposal" || k.typ == "VersionedProposal") && strings.HasSuffix(k.name, "/full") {
+			switch {
+			case strings.Contains(k.name, "/deneb/"):
+				blobCounts = []int{6}
+			case strings.Contains(k.name, "/electra/"):
+				blobCounts = []int{9}
+			case strings.Contains(k.name, "/fulu/"):
+				blobCounts = []int{10, 15, 21}
+			}
+		}
+		for r := 0; r < reps+nlead+len(blobCounts); r++ {
 			v := k.gen()
-			if r >= reps {
+			big := false
+			if r >= reps+nlead {
+				if !setBlobCount(v, blobCounts[r-reps-nlead]) {
+					continue
+				}
+				big = true
+				run.Count("values_many_blobs")
+			} else if r >= reps {
 				// SSZ encodings that begin with the bytes a JSON document can begin with (see leadValues)
 				v, _ = leadTweak(v, leadValues[r-reps])
 				run.Count("values_json_like_ssz_prefix")
@@ -2100,6 +2165,9 @@ func gen(a hx.Args, e *env, do func(string)) {
 				rootTok = hex.EncodeToString(root[:])
 			}
 			do(fmt.Sprintf("x rt %s %s %s %s", k.name, b64(js), b64(sz), rootTok))
+			if big {
+				continue
+			}
 			wire, err := core.VerifMarshal(v)
 			hx.Must(err)
 			all = append(all, encd{k, sz, js, wire, slot20(v)})
